@@ -1210,7 +1210,7 @@ pub fn check(ctx: &Ctx) -> i32 {
         &tally,
         Meta {
             level: "model_checking",
-            rule: "thread schedules: real OS threads run under a baton scheduler with scheduling points before every public call, inside every sink write and around every invariant-log call; all schedules up to the stated preemption bound are enumerated by stateless DFS (counts in 'counters'), each program's results, output bytes and thread-local invariant log must equal its solo run, and replaying a schedule must reproduce its record; 4 threads: every order of whole programs; 8 and 16 threads: round-robin. Same thread: every interleaving at call granularity of every ordered pair of 4 programs on one thread. Equivalent paths: for every history of a bounded accepted-only set x 20 configurations, the output of a reference run is compared byte-for-byte with a second instance, the four other finish entry points, the builder aliases, audio codec None, six sink types (incl. sinks accepting 1 or 5 bytes per write), and a muxer moved to another thread halfway; builder order: every permutation of the setter calls (video, audio, fast start, metadata) x alias choices x 16 configurations against the canonical order, and every setter called twice (a decoy value, then the real one; either alias; audio codec None to switch audio off again); encode_video/encode_audio vs explicit writes at exactly computed ticks for duration patterns up to the long run, audio frame lengths {constant, 10/20/40/60 ms, alternating} and rejected convenience calls (empty frames) in between. Wall clock: the same digest of outputs under an LD_PRELOAD clock offset of 0 and +10 years (child processes). The auto-trait implication (Muxer<W>: Send for every W: Send; Sync likewise) is a generic function in this harness: it is the compiler's verdict, a build failure of the harness otherwise.".into(),
+            rule: "thread schedules: real OS threads run under a baton scheduler with scheduling points before every public call, inside every sink write and around every invariant-log call; all schedules up to the stated preemption bound are enumerated by stateless DFS (counts in 'counters'), each program's results, output bytes and thread-local invariant log must equal its solo run, and replaying a schedule must reproduce its record; 4 threads: every order of whole programs; 8 and 16 threads: round-robin. Two of the six programs drive a FragmentedMuxer (builder H.264; FragmentConfig H.265 at 48 kHz from a non-zero start) and are scheduled next to progressive programs, next to each other and against themselves. Same thread: every interleaving at call granularity of every ordered pair of the 6 programs on one thread; and every victim program (the four progressive ones and the neighbour's fault-free twin) run on a thread on which a neighbour muxer's finish has just failed - 18 fault histories x every sink write call of the fault-free run x {error, half a buffer then error} x {whole victim afterwards, only its finish afterwards}. Equivalent paths: for every history of a bounded accepted-only set x 20 configurations, the output of a reference run is compared byte-for-byte with a second instance, the four other finish entry points, the builder aliases, audio codec None, six sink types (incl. sinks accepting 1 or 5 bytes per write), and a muxer moved to another thread halfway; builder order: every permutation of the setter calls (video, audio, fast start, metadata) x alias choices x 16 configurations against the canonical order, and every setter called twice (a decoy value, then the real one; either alias; audio codec None to switch audio off again); encode_video/encode_audio vs explicit writes at exactly computed ticks for duration patterns up to the long run, audio frame lengths {constant, 10/20/40/60 ms, alternating} and rejected convenience calls (empty frames) in between. Wall clock: the same digest of outputs under an LD_PRELOAD clock offset of 0 and +10 years (child processes). The auto-trait implication (Muxer<W>: Send for every W: Send; Sync likewise) is a generic function in this harness: it is the compiler's verdict, a build failure of the harness otherwise.".into(),
             bound: format!("preemption bounds as listed per setup in counters; thorough={}", ctx.thorough),
             exhaustive: true,
             assumptions: vec![
